@@ -1,5 +1,6 @@
 import Drv.C01
 import Drv.Index
+import Drv.C13
 open Lean Drv
 
 def dispatch (op : String) (j : Json) : Json :=
@@ -8,6 +9,7 @@ def dispatch (op : String) (j : Json) : Json :=
   | "C01.rows" => C01.rows j
   | "C01.flat" => C01.flat j
   | "C02.getitem" => C02.getitem j
+  | "C13.all" => C13.all j
   | _ => obj [("error", toJson s!"bad-op {op}")]
 
 def handle (line : String) : String :=
